@@ -246,9 +246,35 @@ func runC10(c c10Case, st *hx.Stats) error {
 		}
 		return nil
 	}
-	e, err := pfs.NewEncryptedISO(under, []byte(c.Key), c.Clear)
+	// the caller's key slice is handed over as it is and used again for a second view of the same image: "for every disc
+	// key" holds for a key that has been used before, too
+	callerKey := append(make([]byte, 0, 64), []byte(c.Key)...)
+	e, err := pfs.NewEncryptedISO(under, callerKey, c.Clear)
 	if err != nil {
 		return hx.Failf("accepts-valid-table", "valid region table %v rejected: %v", c.Regions, err)
+	}
+	if raw2, err2 := afero.NewOsFs().Open(p); err2 == nil {
+		// a second view made with the same key slice decrypts like the first one
+		defer raw2.Close()
+		e2, err := pfs.NewEncryptedISO(raw2, callerKey, c.Clear)
+		if err != nil {
+			return hx.Failf("accepts-valid-table", "second view of the same image with the same key slice rejected: %v", err)
+		}
+		probe := make([]byte, 3*2048)
+		for _, r := range c.Regions {
+			off := int64(r.End) * 2048 // first sector behind a plain region: encrypted unless the file ends there
+			if r.End < 1<<20 && off+2048 <= int64(len(stored)) {
+				n, _ := e2.ReadAt(probe, off)
+				ta := refcrypt.Table{Plain: c.Regions, Bytes: 8 + 8*len(c.Regions)}
+				x, _ := refcrypt.Plaintext(stored, []byte(c.Key), ta, c.Clear, false)
+				y, _ := refcrypt.Plaintext(stored, []byte(c.Key), ta, c.Clear, true)
+				if n > 0 && !bytes.Equal(probe[:n], x[off:off+int64(n)]) && !bytes.Equal(probe[:n], y[off:off+int64(n)]) {
+					return hx.Failf("decrypt-bytes", "second view opened with the same key slice: %d bytes at %d differ from the reference plaintext", n, off)
+				}
+				st.Label("second view with the caller's key slice compared")
+				break
+			}
+		}
 	}
 	tab := refcrypt.Table{Plain: c.Regions, Bytes: 8 + 8*len(c.Regions)}
 	ra, _ := refcrypt.Plaintext(stored, []byte(c.Key), tab, c.Clear, false)
